@@ -470,6 +470,42 @@ def check_C16(ctx):
                            "(which makes orphan events enqueue nothing) is outside the property's stated quantifier and not modelled")
 
 
+def replay_upgrade(prop, inv, rp, wd):
+    vlib.run_harness(["upgrade", "--scenario", json.dumps(rp["scenario"]), "--out", os.path.join(wd, "rec")])
+    sh = os.path.join(wd, "rec", "shard-00.ndjson")
+    c = Ctx.__new__(Ctx)
+    cfg = "CONSTANTS NRevs = 1\n Budget = 0\nINIT TInit\nNEXT TNext\nCHECK_DEADLOCK FALSE\nINVARIANT %s\n" % inv
+    r = Ctx._tlc_with_cfg(c, "TraceUpgrade", "replay.cfg", cfg, os.path.join(wd, "tlc"), 1, 600, "2g", True, env={"VERIF_TRACE": sh})
+    if r.errors:
+        return False, "replay could not be evaluated: " + r.errors[0][:300]
+    return any(v[0] == inv for v in r.violations), "invariant holds on replay"
+
+
+REPLAYERS["upgrade"] = replay_upgrade
+
+
+def up_scenario(rec):
+    return {"kind": "upgrade", "scenario": {"NRevs": rec["nrevs"], "Relabeled": rec["relabeled"], "Pre": rec["pre"],
+                                            "Faults": [{"K": f[0], "Kind": f[1], "Applied": f[2], "Die": f[3]} for f in rec["faults"]]}}
+
+
+def check_C17(ctx):
+    q = ctx.quick
+    mc = "SPECIFICATION USpec\nCHECK_DEADLOCK FALSE\nINVARIANT Safe\nINVARIANT EndState\nPROPERTY Finishes\n"
+    ctx.design("Upgrade", "CONSTANTS NRevs = 2\n Budget = 2\n" + mc, "upgrade-2revs-2faults")
+    ctx.design("Upgrade", "CONSTANTS NRevs = 3\n Budget = %d\n" % (2 if q else 3) + mc, "upgrade-3revs")
+    cfg = "CONSTANTS NRevs = 1\n Budget = 0\nINIT TInit\nNEXT TNext\nCHECK_DEADLOCK FALSE\nINVARIANT Conf\nINVARIANT P_C17\n"
+    d, shards, meta = ctx.harness(["upgrade", "--maxrevs", "3", "--workers", str(vlib.NCPU)], "single-faults")
+    ctx.trace("TraceUpgrade", cfg, shards, "single-faults", {"P_C17"}, replay=up_scenario)
+    d2, shards2, meta2 = ctx.harness(["upgrade", "--maxrevs", "1" if q else "2", "--pairs", "--workers", str(vlib.NCPU)], "fault-pairs")
+    ctx.trace("TraceUpgrade", cfg, shards2, "fault-pairs", {"P_C17"}, replay=up_scenario)
+    ctx.exhaustive = True
+    ctx.extra["domains"] = [meta, meta2]
+    ctx.add_samples(shards, 2, lambda r: len(r["runs"]) > 1 and r["nrevs"] >= 2)
+    ctx.add_samples(shards2, 1, lambda r: len(r["runs"]) > 2)
+    ctx.assumptions.append("a server answering NotFound to the delete of an existing object is outside the fault model (the helper reads it as 'already gone')")
+
+
 def check_C06(ctx):
     q = ctx.quick
     ctx.design("MCSnapshot", mc_snapshot_cfg(1, 2, 5, False, ["I_C06"]), "pods-1ord")
@@ -612,6 +648,6 @@ def check_C01(ctx):
 
 
 CHECKS = {
-    "C01": check_C01, "C02": check_C02, "C08": check_C08, "C16": check_C16, "C06": check_C06, "C09": check_C09, "C10": check_C10, "C11": check_C11, "C13": check_C13, "C15": check_C15,
+    "C01": check_C01, "C02": check_C02, "C08": check_C08, "C16": check_C16, "C17": check_C17, "C06": check_C06, "C09": check_C09, "C10": check_C10, "C11": check_C11, "C13": check_C13, "C15": check_C15,
     "C03": check_C03, "C04": check_C04, "C05": check_C05, "C07": check_C07, "C12": check_C12, "C14": check_C14,
 }
